@@ -271,3 +271,62 @@ class WordHarness(Harness):
 
 
 register(WordHarness())
+
+
+# ---------------------------------------------------------------------------
+# the disassembly of a line renders every word
+
+import re as _re
+from ttconv.scc.line import SccLine
+from ttconv.scc.disassembly import get_scc_word_disassembly
+from ttconv.time_code import SmpteTimeCode, FPS_30
+
+DIS_MENU = [0x1420, 0x1C20, 0x142C, 0x1C2C, 0x1470, 0x1C70, 0x1152, 0x1952, 0x112E, 0x192E, 0x1721, 0x1F21, 0x1137, 0x1937,
+            0x1220, 0x1A20, 0x1320, 0x1020, 0x1820, 0x172D, 0x4142, 0x2000, 0x0000, 0x1520, 0x0141]
+
+
+class DisassemblyHarness(Harness):
+  name = "c17_disassembly"
+  properties = ("C17",)
+  functions = ("scc.line:SccLine.to_disassembly", "scc.disassembly:get_scc_word_disassembly")
+  assumptions = ("lines are sequences of words drawn by selector variables from a %d-word menu: each code class on both channels, "
+                 "text, padding, a field-2 code, an unknown word" % len(DIS_MENU),)
+  outside = ("words outside the menu (their classification is c17_word's subject)",)
+  required_witnesses = ("channel-2-label", "repeated-code-other-channel")
+  bounds = {"quick": "all lines of 1-3 menu words, with and without channel labels", "thorough": "same"}
+  budget_s = {"quick": 200, "thorough": 600}
+
+  def partitions(self, tier):
+    return [{"first": i, "show": s} for i in range(len(DIS_MENU)) for s in (0, 1)]
+
+  def body(self, ex, params):
+    seq = [DIS_MENU[params["first"]]]
+    for k in range(1, 3):
+      c = ex.choice("w%d" % k, len(DIS_MENU) + 1)
+      if c == len(DIS_MENU):
+        break
+      seq.append(DIS_MENU[c])
+    show = bool(params["show"])
+    words = [SccWord.from_value(w) for w in seq]
+    line = SccLine(SmpteTimeCode(0, 0, 1, 0, FPS_30), words)
+    got, exc = call(ex, line.to_disassembly, show)
+    det = {"show_channels": show, "_words": " ".join("%04x" % w for w in seq)}
+    if exc:
+      ex.fail("C17:disassembly", dict(det, site=exc[1], exc=type(exc[0]).__name__))
+      return
+    body = got.split("\t", 1)[1] if "\t" in got else got
+    # every word is rendered, in order, exactly as it is rendered on its own
+    parts = [get_scc_word_disassembly(w, show) for w in words]
+    ex.prove(all(p != "" for p in parts), "C17:disassembly", dict(det, what="a word renders as nothing"))
+    ex.prove(body == "".join(parts), "C17:disassembly", dict(det, what="line differs from its words", _got=body, _want="".join(parts)))
+    if show:
+      # the channel label of every code is the channel the CEA-608 bit pattern gives (bit 3 of the first byte)
+      labels = _re.findall(r"CC([12])", body)
+      want = ["2" if (w >> 8) & 0x08 else "1" for w in seq if 0x10 <= (w >> 8) <= 0x1F and (w >> 8) & 0x07 not in (5,) and w != 0x172D or w in (0x172D,)]
+      want = ["2" if (w >> 8) & 0x08 else "1" for w in seq if 0x10 <= (w >> 8) <= 0x1F and w != 0x1520]
+      ex.prove(labels == want, "C17:disassembly", dict(det, what="channel labels", _got=labels, _want=want))
+      ex.witness("channel-2-label", "2" in want)
+      ex.witness("repeated-code-other-channel", any(a ^ b == 0x0800 for a, b in zip(seq, seq[1:])))
+
+
+register(DisassemblyHarness())
